@@ -160,7 +160,7 @@ func startOn(bin string, content []byte, secondLeg bool) (res startResult, secon
 
 // Run is the C04 check.
 func Run(ctx *core.Ctx) {
-	ctx.Rule = "logs produced by real servers from generated histories (binary-safe arguments incl. CR/LF/NUL/RESP look-alikes, values > 64 KiB crossing the loader's 0xFFFF buffer, hooks, channels, script writes); for each truncation offset t: start on log[:t]; the server must start, the repaired file size must equal the last command boundary <= t, the dump must equal that of a server started on log[:boundary] (differential, cached per boundary), and for sampled offsets a write after recovery must survive a second restart; zero runs of 1..70000 bytes injected at command boundaries and at the tail must not change the state. quick: every offset of the last 3 commands + 160 PRNG offsets per log; thorough: every byte offset (logs <= 6000 bytes) or 6000 PRNG offsets. non-trivial = offset strictly inside a command (or a zero-run case); distinct key = (log id, offset)"
+	ctx.Rule = "logs produced by real servers from generated histories (binary-safe arguments incl. CR/LF/NUL/RESP look-alikes, values > 64 KiB crossing the loader's 0xFFFF buffer, hooks, channels, script writes); for each truncation offset t: start on log[:t]; the server must start, the repaired file size must equal the last command boundary <= t, the dump must equal that of a server started on log[:boundary] (differential, cached per boundary), and for sampled offsets a write after recovery must survive a second restart; zero runs of 1..70000 bytes injected at command boundaries and at the tail must not change the state; zero runs before a torn tail and AFTER a torn tail (preallocated blocks) lose only the torn command. quick: every offset of the last 3 commands + 160 PRNG offsets per log; thorough: every byte offset (logs <= 6000 bytes) or 6000 PRNG offsets. non-trivial = offset strictly inside a command (or a zero-run case); distinct key = (log id, offset)"
 	ctx.Assumptions = []string{"the state produced by a clean-cut log is correct (C03 decides that)", "no TTLs in the generated logs"}
 	bin, err := srv.Build("plain")
 	if err != nil {
@@ -431,6 +431,61 @@ func Run(ctx *core.Ctx) {
 				}
 				ctx.Count("zero_run_plus_tear_cases", 1)
 				ctx.Distinct(fmt.Sprintf("%d@z%d+cut%d", li, run, t))
+			}(ci)
+		}
+		wg.Wait()
+		// a torn tail FOLLOWED by zero padding (a crash during an append on a file system that
+		// had preallocated the blocks): still only the torn command is lost
+		ntz := ctx.Pick(16, 120)
+		for ci := 0; ci < ntz; ci++ {
+			wg.Add(1)
+			sem <- struct{}{}
+			go func(ci int) {
+				defer wg.Done()
+				defer func() { <-sem }()
+				rr := ctx.SubRng(int64(li*1000 + ci + 80000))
+				run := []int{1, 2, 7, 100, 4096, 65535, 70000}[rr.Intn(7)]
+				ei := rr.Intn(len(ends) - 1)
+				if ci%3 == 0 {
+					ei = len(ends) - 2 // the last command is the most likely victim of a crash
+				}
+				cmdStart, cmdEnd := ends[ei], ends[ei+1]
+				if cmdEnd-cmdStart < 2 {
+					return
+				}
+				t := cmdStart + 1 + rr.Intn(cmdEnd-cmdStart-1)
+				content := append(append([]byte{}, logb[:t]...), make([]byte, run)...)
+				b := cmdStart
+				res, sec := startOn(bin, content, true)
+				ctx.Eval(1)
+				replay := map[string]any{"log": li, "cut": t, "zeros_after_cut": run, "boundary": b}
+				if res.err != nil {
+					if res.diag == "start" {
+						ctx.Violation("start-fails-torn-then-padded", fmt.Sprintf("log %d cut at %d (inside the command starting at %d) and followed by %d zero bytes: server does not start: %v", li, t, b, run, res.err), replay)
+					} else {
+						ctx.Inconclusive("harness: " + res.err.Error())
+					}
+					return
+				}
+				if int(res.size) != b {
+					ctx.Violation("size-after-repair-torn-then-padded", fmt.Sprintf("log %d cut at %d and followed by %d zero bytes: file size after start %d, last complete command ends at %d", li, t, run, res.size, b), replay)
+					return
+				}
+				ref, err := getRef(b)
+				if err != nil {
+					ctx.Inconclusive("reference start: " + err.Error())
+					return
+				}
+				if d := dump.Diff(ref, res.state); d != "" {
+					ctx.Violation("state-after-repair-torn-then-padded", fmt.Sprintf("log %d cut at %d and followed by %d zero bytes: recovered state differs from the clean-cut load: %s", li, t, run, d), replay)
+					return
+				}
+				if strings.HasPrefix(sec, "VIOLATION") {
+					ctx.Violation("write-after-repair-lost-torn-then-padded", fmt.Sprintf("log %d cut at %d and followed by %d zero bytes: %s", li, t, run, sec), replay)
+					return
+				}
+				ctx.Count("tear_then_zero_run_cases", 1)
+				ctx.Distinct(fmt.Sprintf("%d@cut%d+z%d", li, t, run))
 			}(ci)
 		}
 		wg.Wait()
